@@ -4,7 +4,7 @@
 # 2. applies the patch to /repo, runs the check, restores /repo
 set -u
 export GOFLAGS=-mod=mod GOPROXY=off GOSUMDB=off GOTOOLCHAIN=local
-P=$1; D=$2
+P=$1; D=$(readlink -f $2)
 dir=$(head -3 $D/demo_test.go | grep -o 'dir: [^ ]*' | head -1 | cut -d' ' -f2)
 [ -z "$dir" ] && { echo "no dir comment in demo"; exit 2; }
 W=$(mktemp -d /tmp/seedchk.XXXX); rmdir $W
